@@ -21,11 +21,14 @@ open PcbV PcbV.Screen PcbV.ScreenLemmas
     pixel of the canvas obtained by folding the reference consumer over the emitted signals equals
     that page's pixel buffer, and every character cell equals the page's character buffer except
     cells still waiting in a dirty range inside `collect_updates`; outside `collect_updates`
-    (statement boundaries) all character cells are equal. -/
-theorem display_tracks_buffer (e : Env) (npages attr v : Nat) (ops : List Op)
+    (statement boundaries) all character cells are equal.  `oldv` is the visible-page number left
+    over from the previous mode and is ARBITRARY — in particular it may be `≥ npages` (mode change
+    into a mode with fewer pages while a high page was visible: `WIDTH 40: SCREEN ,,5,5: WIDTH 80`):
+    the new visible page is switched on and resubmitted all the same. -/
+theorem display_tracks_buffer (e : Env) (npages attr oldv v : Nat) (ops : List Op)
     (hth : 0 < e.g.th) (htw : 0 < e.g.tw) (hv : v < npages)
-    (hval : validOps e (initDisp npages attr) (Op.setPage v :: ops)) :
-    let r := runOps e (initDisp npages attr) (Op.setPage v :: ops)
+    (hval : validOps e (initDisp npages attr oldv) (Op.setPage v :: ops)) :
+    let r := runOps e (initDisp npages attr oldv) (Op.setPage v :: ops)
     let cv := consume Canvas.empty (modeSignal e :: r.2)
     let p := r.1.pages r.1.vnum
     p.visible = true ∧
@@ -33,18 +36,18 @@ theorem display_tracks_buffer (e : Env) (npages attr v : Nat) (ops : List Op)
     (∀ row c, row < e.g.th → c < e.g.tw → cv.tx row c ≠ p.utext row c → Cov p row c) ∧
     (p.locked = false → ∀ row c, row < e.g.th → c < e.g.tw → cv.tx row c = p.utext row c) := by
   intro r cv p
-  have hi0 : Inv e (initDisp npages attr) (consume1 Canvas.empty (modeSignal e)) :=
+  have hi0 : Inv e (initDisp npages attr oldv) (consume1 Canvas.empty (modeSignal e)) :=
     ⟨mode_geom e _ hth htw, fun i h => by simp [initDisp, blankPage] at h,
      fun h => by simp [initDisp, blankPage] at h, fun i h r => rfl⟩
   -- the first operation makes page v visible
   have h1 := step_inv e _ _ (Op.setPage v) hi0 hval.1
-  have hvis1 : (((Op.setPage v).run e (initDisp npages attr)).1.pages
-      ((Op.setPage v).run e (initDisp npages attr)).1.vnum).visible = true := by
-    have hvn : v < (initDisp npages attr).npages := hv
+  have hvis1 : (((Op.setPage v).run e (initDisp npages attr oldv)).1.pages
+      ((Op.setPage v).run e (initDisp npages attr oldv)).1.vnum).visible = true := by
+    have hvn : v < (initDisp npages attr oldv).npages := hv
     simp only [Op.run, hvn, if_true, setPageAt]
-    have hinv : (if v = (initDisp npages attr).vnum
-        then (setVisible e ((initDisp npages attr).pages (initDisp npages attr).vnum) false).1
-        else (initDisp npages attr).pages v).visible = false := by
+    have hinv : (if v = (initDisp npages attr oldv).vnum
+        then (setVisible e ((initDisp npages attr oldv).pages (initDisp npages attr oldv).vnum) false).1
+        else (initDisp npages attr oldv).pages v).visible = false := by
       split_ifs
       · exact (setVisible_off e _).1
       · rfl
@@ -52,8 +55,8 @@ theorem display_tracks_buffer (e : Env) (npages attr v : Nat) (ops : List Op)
   have h2 := run_inv e ops _ _ h1.1 hval.2
   have hvis : p.visible = true := h2.2 hvis1
   have hcv : cv = consume (consume (consume1 Canvas.empty (modeSignal e))
-      ((Op.setPage v).run e (initDisp npages attr)).2)
-      (runOps e ((Op.setPage v).run e (initDisp npages attr)).1 ops).2 := by
+      ((Op.setPage v).run e (initDisp npages attr oldv)).2)
+      (runOps e ((Op.setPage v).run e (initDisp npages attr oldv)).1 ops).2 := by
     simp only [cv, r, runOps, consume, List.foldl_cons, List.foldl_append]
   have ht : TD e p cv := by rw [hcv]; exact h2.1.shows hvis
   refine ⟨hvis, ht.2.1, fun row c hr hc hne => (ht.2.2 row c hr hc hne).1, fun hl row c hr hc => ?_⟩
@@ -76,24 +79,24 @@ theorem resubmit_redraws (e : Env) (d : Disp) (cv0 : Canvas) (hth : 0 < e.g.th) 
   exact this.2
 
 /-- the states reached by histories satisfy the hypotheses of `resubmit_redraws` -/
-theorem reachable_redraws (e : Env) (npages attr v : Nat) (ops : List Op) (cv0 : Canvas)
+theorem reachable_redraws (e : Env) (npages attr oldv v : Nat) (ops : List Op) (cv0 : Canvas)
     (hth : 0 < e.g.th) (htw : 0 < e.g.tw) (hv : v < npages)
-    (hval : validOps e (initDisp npages attr) (Op.setPage v :: ops)) :
-    let d := (runOps e (initDisp npages attr) (Op.setPage v :: ops)).1
+    (hval : validOps e (initDisp npages attr oldv) (Op.setPage v :: ops)) :
+    let d := (runOps e (initDisp npages attr oldv) (Op.setPage v :: ops)).1
     let cv := consume cv0 (rebuild e d)
     (∀ y x, y < e.g.H → x < e.g.W → cv.px y x = (d.pages d.vnum).px y x) ∧
     (∀ row c, row < e.g.th → c < e.g.tw → cv.tx row c = (d.pages d.vnum).utext row c) := by
   intro d cv
   have hvn : d.vnum < d.npages := by
-    have h0 : ((Op.setPage v).run e (initDisp npages attr)).1.vnum <
-        ((Op.setPage v).run e (initDisp npages attr)).1.npages := by
-      have hvn : v < (initDisp npages attr).npages := hv
+    have h0 : ((Op.setPage v).run e (initDisp npages attr oldv)).1.vnum <
+        ((Op.setPage v).run e (initDisp npages attr oldv)).1.npages := by
+      have hvn : v < (initDisp npages attr oldv).npages := hv
       simp only [Op.run, hvn, if_true, setPageAt]
     exact run_vnum e ops _ h0
-  have hi0 : Inv e (initDisp npages attr) (consume1 Canvas.empty (modeSignal e)) :=
+  have hi0 : Inv e (initDisp npages attr oldv) (consume1 Canvas.empty (modeSignal e)) :=
     ⟨mode_geom e _ hth htw, fun i h => by simp [initDisp, blankPage] at h,
      fun h => by simp [initDisp, blankPage] at h, fun i h r => rfl⟩
-  have hmain := display_tracks_buffer e npages attr v ops hth htw hv hval
+  have hmain := display_tracks_buffer e npages attr oldv v ops hth htw hv hval
   have h2 := run_inv e (Op.setPage v :: ops) _ _ hi0 hval
   exact resubmit_redraws e d cv0 hth htw hvn h2.1.only hmain.1
 
@@ -164,15 +167,22 @@ theorem copy_alias_old_counterexample :
 /-! ### non-vacuity -/
 
 /-- a valid history exists for the tiny environment (so `display_tracks_buffer` is not vacuous) … -/
-example : validOps tinyEnv (initDisp 2 7)
+example : validOps tinyEnv (initDisp 2 7 0)
     [Op.setPage 0, Op.page 0 (POp.putChar 2 1 65 23), Op.page 0 (POp.scrollUp 1 2 16),
      Op.page 1 (POp.putChar 1 1 66 7), Op.pcopy 1 0, Op.setPage 1, Op.page 1 (POp.clearRows 1 2 32),
      Op.page 1 (POp.setPixels 0 1 0 1 (fun _ _ => 3))] := by
   decide
 
+/-- the stale visible-page number of the previous mode may lie beyond the new page list: page 0 of a
+    2-page mode is shown although page 5 was visible before the mode change -/
+example :
+    let r := runOps tinyEnv (initDisp 2 7 5) [Op.setPage 0, Op.page 0 (POp.putChar 1 1 65 23)]
+    r.1.vnum = 0 ∧ (r.1.pages 0).visible = true ∧
+    (consume Canvas.empty (modeSignal tinyEnv :: r.2)).px 0 0 = 23 ∧ (r.1.pages 0).px 0 0 = 23 := by decide
+
 /-- … and on it the repaired scroll does paint the background: the bottom pixel is 1 on both sides -/
 example :
-    let r := runOps tinyEnv (initDisp 2 7)
+    let r := runOps tinyEnv (initDisp 2 7 0)
       [Op.setPage 0, Op.page 0 (POp.putChar 2 1 65 23), Op.page 0 (POp.scrollUp 1 2 16)]
     (r.1.pages 0).px 1 0 = 1 ∧ (consume Canvas.empty (modeSignal tinyEnv :: r.2)).px 1 0 = 1 ∧
     (r.1.pages 0).px 0 0 = 23 := by decide
